@@ -126,6 +126,25 @@ Proof.
     apply in_map_iff. exists c. split; [reflexivity|exact Hc].
 Qed.
 
+(* sequentially the grace re-check of the selection loop never fires: every
+   candidate passed the same test at the snapshot *)
+Lemma select_g_eq : forall gs l target, (forall x, In x l -> p_first (snd x) <= gs) ->
+  select_g gs l target = select l target.
+Proof.
+  intros gs. induction l as [|[p pi] r IH]; intros target H; cbn [select_g select]; [reflexivity|].
+  destruct (target <=? 0); [reflexivity|].
+  assert (E : (gs <? p_first pi) = false) by (apply Z.ltb_ge; exact (H (p, pi) (or_introl eq_refl))).
+  rewrite E. rewrite !IH by (intros x Hx; apply H; right; exact Hx). reflexivity.
+Qed.
+
+Lemma cands_first : forall cfg s (sort : list cand -> list cand), (forall l, Permutation (sort l) l) -> forall x,
+  In x (sort (filter (fun x : cand => negb (is_prot (prot s) (fst x)) && (p_first (snd x) <=? now s - c_grace cfg))
+                     (tracked_list s))) -> p_first (snd x) <= now s - c_grace cfg.
+Proof.
+  intros cfg s sort Hp x Hx. apply (Permutation_in _ (Hp _)) in Hx. apply filter_In in Hx. destruct Hx as [_ Hx].
+  apply andb_true_iff in Hx. apply Z.leb_le. tauto.
+Qed.
+
 (* ---- candidates and the bookkeeping view ------------------------------------------------- *)
 Definition mk_cand (s : state) (p : nat) : cand := (p, peer_at s p).
 
@@ -261,6 +280,7 @@ Section WithSort.
     intros cfg s Hinv Hlow. unfold trim, trim_ok, disabled.
     destruct ((c_low cfg =? 0) || (c_high cfg =? 0)) eqn:Ed; cbn [orb snd]; [reflexivity|].
     rewrite (acount_abs s Hinv). destruct (count s <=? c_low cfg) eqn:Ec; cbn [orb snd]; [reflexivity|].
+    rewrite (select_g_eq _ _ _ (cands_first cfg s sort sort_perm)).
     rewrite cands_eq, nconns_cands.
     destruct (ncand_a cfg (abs s) <? c_low cfg) eqn:En; cbn [snd]; [reflexivity|].
     set (ids := filter (eligible cfg (abs s)) (pids (abs s))).
@@ -337,6 +357,7 @@ Section WithSort.
     intros cfg s Hinv. unfold trim.
     destruct ((c_low cfg =? 0) || (c_high cfg =? 0)); [exists []; split; [reflexivity|intros p []]|].
     destruct (count s <=? c_low cfg); [exists []; split; [reflexivity|intros p []]|].
+    rewrite (select_g_eq _ _ _ (cands_first cfg s sort sort_perm)).
     rewrite cands_eq.
     destruct (_ <? c_low cfg); [exists []; split; [reflexivity|intros p []]|].
     match goal with |- context [select ?l ?t] => destruct (select l t) as [[sel pr] t'] eqn:Es end.
